@@ -79,6 +79,20 @@ def _azimuthal_drawings(ck: Checker, prog: Program):
         w3 = wants[0][2]
         alts = [w3, canon(RR.expect(f"np.vstack(({M}, {M}[0:1]))")), canon(RR.expect(f"np.vstack([{M}, {M}[0]])")), canon(RR.expect(f"np.concatenate(({M}, {M}[:1]))"))]
         third_ok = got[2] in alts
+    # ... and its azimuth axis is the object's azimuths, in the object's order, followed by 180 (row k of the surface is azimuth k)
+    if isinstance(got, sp.Tuple) and len(got) == 3:
+        axes = {a_.args[1] for g_ in got[:2] for a_ in sp.preorder_traversal(g_) if getattr(getattr(a_, "func", None), "__name__", "") == "meshgrid" and len(a_.args) >= 2}
+        allowed = [canon(RR.expect(src)) for src in ("[*hvsr.azimuths, 180.]", "(*hvsr.azimuths, 180.)", "np.append(hvsr.azimuths, 180.)", "np.array([*hvsr.azimuths, 180.])",
+                                                     "list(hvsr.azimuths) + [180.]", "np.concatenate((hvsr.azimuths, [180.]))", "np.hstack((hvsr.azimuths, 180.))")]
+        for ax in axes:
+            names_ = {getattr(getattr(a_, "func", None), "__name__", "") for a_ in sp.preorder_traversal(ax)}
+            if ax in allowed:
+                ck.ok(R_, f.qualname, "azimuth axis = the object's azimuths in order, then 180", nontrivial=False)
+            elif names_ & {"sorted", "sort", "unique", "flip", "argsort", "reversed"}:
+                ck.violation(R_, f.qualname, "azimuth axis", f"the azimuth axis of the surface is `{str(ax)[:100]}`: re-ordered, while the rows of the surface stay in the object's "
+                             f"order - each mean curve is drawn at another azimuth", loc=f.loc(rets[0]))
+            else:
+                raise AnalysisError(f"{f.qualname}: the azimuth axis `{str(ax)[:80]}` is not recognised")
     if third_ok:
         ck.ok(R_, f.qualname, "surface = mean curves by azimuth, closed at 180 degrees by the first azimuth's curve")
     elif third_ok is False:
